@@ -24,6 +24,12 @@ def main():
         os.environ['PYTHONHASHSEED'] = '0'
         os.environ['PYTHONDONTWRITEBYTECODE'] = '1'
         os.execv(sys.executable, [sys.executable, '-X', 'faulthandler'] + sys.argv)
+    # details of a violation may carry any text (unpaired surrogates, ...)
+    for stream in (sys.stdout, sys.stderr):
+        try:
+            stream.reconfigure(errors='backslashreplace')
+        except (AttributeError, ValueError):
+            pass
     from sim import core, runner
     if args.pid == 'selftest':
         from sim import selftest
